@@ -1,11 +1,14 @@
 import Zrnt.Driver.Loop
 import Zrnt.Util.C19Driver
+import Zrnt.SSZ.Driver
 import Zrnt.Shuffle.Driver
 /-! Registry of `zmodel` modes. One line per component: `import` above, entry in `modes` below. -/
 namespace Zrnt.Driver
 
 def modes : List Mode := [
   Zrnt.Util.c19Mode,
+  Zrnt.SSZ.Driver.sszMode,
+  Zrnt.SSZ.Driver.sszStateMode,
   Zrnt.Shuffle.shuffleMode
 ]
 
